@@ -46,6 +46,7 @@ func init() {
 	}
 	attRoot, _ = x509.ParseCertificate(der)
 	provs[0].AttestationRoots = pem.EncodeToMemory(&pem.Block{Type: "CERTIFICATE", Bytes: der})
+	provs[1].AttestationRoots = provs[0].AttestationRoots
 }
 
 var oidYubicoSerial = asn1.ObjectIdentifier{1, 3, 6, 1, 4, 1, 41482, 3, 7}
